@@ -153,6 +153,20 @@ func placeExec(c *Ctx, op string) {
 		case "other":
 			tartrans.Unpack(ctx, id2, "-", uf, rio.Placement_None, wh, rio.Monitor{})
 			c.H("op:other")
+		case "alt":
+			// history: the same ware unpacked earlier through the shared cache with an altering filter
+			auf := api.MustParseFilesetUnpackFilter("uid=7,gid=8,mtime=@1234,sticky=follow,setid=follow,dev=follow")
+			d := newDst("absent")
+			if x[1] == "none" {
+				d = "-"
+			}
+			safeCall(func() (api.WareID, error) {
+				return tartrans.Unpack(ctx, id, d, auf, rio.PlacementMode(x[1]), wh, rio.Monitor{})
+			})
+			if x[1] == "mount" {
+				syscall.Unmount(d, 0)
+			}
+			c.H("op:alt:" + x[1])
 		case "u":
 			mode, pre := x[1], x[2]
 			d := newDst(pre)
@@ -364,6 +378,9 @@ func placeEngine(c *Ctx) {
 			}
 		}
 		var ops []string
+		if k%2 == 1 { // cold cache first warmed by an unpack with an altering filter
+			ops = append(ops, "alt:"+[]string{"copy", "none", "mount"}[c.Intn(3)])
+		}
 		// fixed prefix: the route x pre-state combinations that matter most, then the writable-mount life cycle
 		ops = append(ops, "u:copy:foreign", "u:copy:junk", "u:direct:absent", "u:none:absent")
 		if k%5 != 4 {
@@ -374,6 +391,9 @@ func placeEngine(c *Ctx) {
 		for i := 0; i < l; i++ {
 			if c.Chance(1, 6) {
 				ops = append(ops, "other")
+			}
+			if c.Chance(1, 8) {
+				ops = append(ops, "alt:"+modes[1+c.Intn(3)])
 			}
 			ops = append(ops, fmt.Sprintf("u:%s:%s", modes[c.Intn(4)], pres[c.Intn(3)]))
 		}
